@@ -6,6 +6,9 @@ R19.1 at every ret and tail jump rsp equals its entry value.
 R19.2 at every such exit rbx, rbp, r12-r15 hold their entry values.
 R19.3 no reachable instruction writes DF (std / popf), MXCSR or the x87 control word.
 R19.4 no store at or above the return address.
+R19.7 no store beyond an aligned frame: after `and rsp, -N` the bytes between the aligned rsp and the registers the
+      function pushed are only guaranteed up to the amount it subtracted; a fixed-offset store past that amount
+      overwrites the saved registers whenever the alignment slack happens to be zero.
 R19.5 the abstract rsp agrees on all edges into a join.
 R19.6 the first-call trampolines (X_mbinit -> X_dispatch_init) also preserve every argument register,
       rax, r10, r11 and touch no vector / mask register (the interface's arguments are live across them).
@@ -156,7 +159,7 @@ def worker(lib, objname, extra):
             for cs, (i, kind, v) in bad_regs.items():
                 add("R19.2", cs.lower(), "%s does not hold its entry value at %s `%s` (abstract value %s)" % (cs.lower(), kind, i.text.strip(), v if v[0] != "der" else "derived"), i.addr)
         for (rule, construct, msg, addr) in r.findings:
-            if rule == "R19.4":
+            if rule in ("R19.4", "R19.7"):
                 add(rule, construct, msg, addr)
             elif rule == "R19.5":
                 add(rule, construct, msg, addr)
@@ -222,7 +225,7 @@ def run(chk):
     # obligations: one per (function, exit-class rule)
     nf = tot["funcs"]
     bad_funcs = collections.Counter((f.function, f.rule) for f in chk.findings)
-    for rule in ("R19.1", "R19.2", "R19.4", "R19.5"):
+    for rule in ("R19.1", "R19.2", "R19.4", "R19.5", "R19.7"):
         nbad = len({fn for (fn, r) in bad_funcs if r == rule})
         chk.obligations[rule] = [nf, nf - nbad]
     chk.obligations["R19.3"] = [tot["ins"], tot["ins"] - len([1 for f in chk.findings if f.rule == "R19.3"])]
